@@ -158,7 +158,8 @@ def clear_registry():
 def _rowify(a, n):
     a = np.asarray(a)
     if a.dtype == object or a.dtype.kind not in 'fiub':
-        a = np.asarray(float(int(dg(a), 16) % 100003) / 100003.0)
+        # content, never object addresses (tobytes() of an object array is a pointer dump)
+        a = np.asarray(float(int(dg(a.tolist()), 16) % 100003) / 100003.0)
     a = a.astype(np.float64, copy=False)
     if a.ndim >= 1 and a.shape[0] == n:
         # values only: the memory layout of an argument must not matter to the kernel
@@ -605,6 +606,9 @@ def gen_dag_spec(tape, max_nodes=9, allow_stochastic_observed=True):
             free = [c for c in cands if c not in out]
             if free and tape.chance('node_parent', 3, 4):
                 out.append(tape.choice('parent', free))
+            elif tape.chance('special_const', 1, 6):
+                # "constants as given": falsy values and None are values like any other
+                out.append(tape.choice('special_value', [0.0, 0, False, None]))
             else:
                 out.append(float(tape.int('inline_const', 1, 9)) * 0.5)
         return out
